@@ -917,35 +917,84 @@ def shrink(case, budget=120):
 
 
 def loss_with_backlog(res):
-    """NOT judged (reported as a note): the connection is lost while more frames are pending than there are consumers
-    (all consumers held up in the first device creation), the class loading then completes: every consumer handles the
-    frame it holds, finds `connected` cleared and ends; the frames still queued are never taken, and a later shutdown()
-    waits for the read queue for ever (a sibling of finding F1, on the read queue)"""
-    with pipefake.Driven(hold_devices=True) as loop:
-        proto = AsyncProtocol()
-        reader, writer = asyncio.StreamReader(), pipefake.FakeWriter()
-        loop.call_soon(proto.connection_established, reader, writer)
-        loop.settle()
-        reader.feed_data(b"".join(wire(marker(i)) for i in range(5)))
-        loop.settle()
-        reader.feed_eof()
-        loop.settle()
-        while loop.held:
-            loop.release(0)
-            loop.settle()
-        queued = proto._queues.read.qsize()
-        alive = sum(1 for t in proto.tasks if t.get_name().startswith("frame_consumer") and not t.done())
-        sd = loop.create_task(proto.shutdown())
-        loop.settle()
-        loop.settle(until=loop.time() + 600.0)
-        loop.settle()
-        done = sd.done()
-        if not done:
-            sd.cancel()
-    res.extra["loss_with_backlog"] = dict(frames=5, consumers=3, left_in_read_queue=queued, consumers_alive=alive, shutdown_completes=done)
-    if not done:
-        res.notes.append("finding candidate (not judged): connection lost with 5 frames pending in front of 3 consumers held in the first "
-                         f"device creation -> {queued} frames stay in the read queue with no consumer left, shutdown() never returns")
+    """The connection is lost while frames are pending behind consumers that are all held up in the first device
+    creation; the class loading then completes: every consumer handles the frame it holds, finds `connected` cleared
+    and ends.  JUDGED:
+      * C09's own clause - the accounting stays balanced: unfinished = frames still queued (no consumer holds one),
+        every frame was either handled once or is still queued, nothing lost or duplicated;
+      * a backlog no larger than the pool is handled completely and shutdown() completes;
+      * with MORE frames than consumers the rest stays in the read queue with no live consumer and nothing connected,
+        and shutdown() waits in Queues.join for ever: exactly the state open finding F1 (filed under C12, the
+        property about close() returning) describes - "a non-empty read queue and no live consumer".  The harness
+        evaluates F1's match predicate on what it observed (shutdown suspended in Queues.join, read queue non-empty,
+        no consumer task alive, `connected` cleared) and tags the failure finding="F1" only then; a shutdown() that
+        hangs in any other state is an untagged failure of C09's "a later shutdown can complete"."""
+    import connrun
+
+    for nframes, consumers in ((3, 3), (5, 3), (4, 1), (9, 2)):
+        hist = (f"loss with backlog: consumers_count={consumers}, {nframes} marker frames in one chunk while the first device class is loading, "
+                "end of stream, the class loading completes, shutdown()")
+        with pipefake.Driven(hold_devices=True) as loop:
+            proto = AsyncProtocol(consumers_count=consumers)
+            handled = []
+            orig = PhysicalDevice.handle_frame
+
+            def spy(self, frame, _o=orig, _h=handled):
+                _h.append(bytes(frame.message))
+                return _o(self, frame)
+
+            PhysicalDevice.handle_frame = spy
+            try:
+                reader, writer = asyncio.StreamReader(), pipefake.FakeWriter()
+                loop.call_soon(proto.connection_established, reader, writer)
+                loop.settle()
+                reader.feed_data(b"".join(wire(marker(i)) for i in range(nframes)))
+                loop.settle()
+                reader.feed_eof()
+                loop.settle()
+                while loop.held:
+                    loop.release(0)
+                    loop.settle()
+                queued = proto._queues.read.qsize()
+                unfinished = proto._queues.read._unfinished_tasks
+                alive = sum(1 for t in proto.tasks if t.get_name().startswith("frame_consumer") and not t.done())
+                connected = proto.connected.is_set()
+                sd = loop.create_task(proto.shutdown())
+                loop.settle()
+                loop.settle(until=loop.time() + 600.0)
+                loop.settle()
+                done = sd.done()
+                chain = [] if done else connrun.coro_chain(sd)
+                if not done:
+                    sd.cancel()
+                    loop.settle()
+            finally:
+                PhysicalDevice.handle_frame = orig
+        res.case(hist, True)
+        obs = dict(frames=nframes, consumers=consumers, handled=len(handled), left_in_read_queue=queued, unfinished=unfinished,
+                   consumers_alive=alive, connected=connected, shutdown_completes=done, blocked_in=chain)
+        res.extra.setdefault("loss_with_backlog", []).append(obs)
+        expect_handled = [bytes.fromhex(marker(i)["payload"]) for i in range(nframes)]
+        if unfinished != queued or len(handled) + queued != nframes or handled != expect_handled[:len(handled)] or len(set(handled)) != len(handled):
+            res.fail("spec", dict(history=hist), "unfinished = frames still queued; handled ++ queued = received, each once, in order", obs,
+                     "the accounting of received frames stays balanced (loss with a backlog)")
+            continue
+        if nframes <= consumers and (queued or not done):
+            res.fail("spec", dict(history=hist), "a backlog no larger than the pool is handled and shutdown() completes", obs,
+                     "a later shutdown can complete")
+            continue
+        if done:
+            res.count("loss-with-backlog:shutdown-returned")
+            if queued:
+                res.notes.append(f"finding F1 (read-queue side, reached by C09's loss-with-backlog history {nframes}/{consumers}) no longer reproduces")
+            continue
+        f1 = "shutdown" in chain and "join" in chain and queued > 0 and alive == 0 and not connected
+        res.count("loss-with-backlog:" + ("F1:stuck" if f1 else "stuck-other"))
+        if f1:
+            res.fail("spec", dict(history=hist), "a later shutdown can complete", obs, "a later shutdown can complete", finding="F1")
+        else:
+            res.fail("spec", dict(history=hist), "a later shutdown can complete", obs,
+                     "a later shutdown can complete (shutdown() blocked, not the state of known finding F1)")
 
 
 def parse_case(line):
